@@ -84,8 +84,10 @@ DivStep(x, y, i, q, r) ==
        IN DivStep(x, y, i - 1, <<d>> \o q, Sub(r1, MulLimb(y, d)))
 DivMod(x, y) == DivStep(x, y, Len(x), <<>>, <<>>)       \* y # <<>>; <<quotient, remainder>>
 
-RECURSIVE Pow2(_)
-Pow2(k) == IF k = 0 THEN <<1>> ELSE MulLimb(Pow2(k - 1), 2)
+RECURSIVE Pow2R(_)
+Pow2R(k) == IF k = 0 THEN <<1>> ELSE MulLimb(Pow2R(k - 1), 2)
+Pow2Tab == [k \in 0..64 |-> Pow2R(k)]          \* constant, evaluated once by TLC
+Pow2(k) == IF k <= 64 THEN Pow2Tab[k] ELSE Pow2R(k)
 
 -----------------------------------------------------------------------------
 (* Signed integers: [n |-> negative?, m |-> magnitude]; zero is never negative *)
